@@ -9,6 +9,15 @@ Two case kinds (generated from ctx.rng, replayable from their JSON form):
         invalid result types, duplicate states, real or complex dyadic values) and a list of queries:
         subscripts of every form and chains of 1-3 threshold/parity mappings (plain or inverted)
   samp  a SamplingResult built from counts, subscripts, chains of mappings
+The form in which the values are handed to the constructor is a dimension of its own ("dtype" of a sim
+case, "ctype" of a samp case): ndarrays of every numeric dtype (complex128/64, float64/32/16, signed and
+unsigned integers, bool, object arrays holding Python ints / Fractions / floats / complex) and nested
+Python lists, each crossed with every result type - in particular amplitude results that hold only real /
+integer / boolean numbers and probability results stored in a complex array; counts as Python ints, floats,
+Fractions, bools and numpy scalars.  "fan" queries apply several mappings to the SAME object (a chain applies
+each mapping to the previous mapped result); every mapping call is followed by a check that the object it
+was called on is unchanged.  A directed corpus (every dtype x both valid result types x all four mappings)
+runs first.
 Values are dyadic rationals, so the floats the implementation sees are exact and so are its sums.
 The iteration order of the Python set in `_recombine_mapped_result` is observed on the
 implementation and handed to the model as its column order (it must enumerate the model's image
@@ -46,7 +55,11 @@ ASSUMPTIONS = [
     "(theorems are unbounded)",
     "values are dyadic rationals (exact in binary floating point); comparisons use 1e-9",
     "a result labelled 'probability' holds real values (complex values under that label lose their imaginary part in numpy "
-    "with a ComplexWarning; recorded as a note, not counted)",
+    "with a ComplexWarning; recorded as a note, not counted): for such results, and for arrays of dtype bool (numpy adds "
+    "booleans with `or`), only acceptance/refusal, the image set, indexing coherence and that the source is unchanged "
+    "are checked on a mapping, not the mapped values (oracle-only, the model is not asked)",
+    "integer dtypes hold values whose sums stay inside the dtype (no int8/uint8 wrap-around is provoked)",
+    "nested-list input has >= 1 row (an empty list is a 1-d array for numpy; not generated)",
 ]
 
 # ------------------------------------------------------------------------------------- helpers
@@ -154,6 +167,41 @@ def gen_chain(rng) -> list:
             for _ in range(rng.choice([1, 1, 1, 2, 2, 3] + ([4] if SIZE["big"] else [])))]
 
 
+def gen_fan(rng) -> list:
+    """mappings that are all applied to the SAME object; repeats and both invert settings of one kind are likely"""
+    combos = [[k, i] for k in ("threshold", "parity") for i in (False, True)]
+    r = rng.random()
+    if r < 0.2:
+        fan = list(combos)
+        rng.shuffle(fan)
+    elif r < 0.55:
+        k = rng.choice(["threshold", "parity"])
+        fan = [[k, rng.random() < 0.5] for _ in range(rng.randint(2, 4))]
+    else:
+        fan = [list(rng.choice(combos)) for _ in range(rng.randint(2, 5))]
+    return fan
+
+
+# how the values are handed to the constructor: ndarray dtypes and nested Python lists
+FLOAT_DT = ["float64", "float32", "float16"]
+CPLX_DT = ["complex128", "complex64"]
+INT_DT = ["int64", "int32", "int8", "uint8"]
+LIST_DT = ["list:float", "list:int", "list:complex", "list:bool", "list:mixed"]
+DTYPES = CPLX_DT + FLOAT_DT + INT_DT + ["bool", "object"] + LIST_DT
+
+
+def gen_value_for(rng, dt: str, imag: bool) -> list:
+    """a value the dtype represents exactly (and whose sums over a row stay representable)"""
+    if dt == "bool" or dt == "list:bool":
+        return [str(rng.choice([0, 1, 1])), "0"]
+    if dt in INT_DT or dt == "list:int":
+        lo = 0 if dt == "uint8" else -3
+        return [str(rng.choice([0, 0, 1, 1, 2, 3, rng.randint(lo, 5)])), "0"]
+    if dt == "list:mixed":
+        return [rng.choice(["0", "1", "2", "1/2", "-1/4", "3/8", frac_str(Fraction(rng.randint(-64, 64), 64))]), "0"]
+    return gen_value(rng, imag)
+
+
 def gen_sim_case(ctx: Ctx, rng) -> dict:
     modes = rng.randint(0, 4) if rng.random() < 0.1 else rng.randint(1, 4)
     r = rng.choice([0, 1, 1, 2, 2, 3, 4] + ([5, 6] if SIZE["big"] else []))
@@ -162,35 +210,112 @@ def gen_sim_case(ctx: Ctx, rng) -> dict:
     ins = gen_states(rng, r, rng.randint(1, 3), dup_in)
     outs = gen_states(rng, c, modes, dup_out)
     r, c = len(ins), len(outs)
-    rt = rng.choice(["probability"] * 7 + ["probability_amplitude"] * 2 + ["counts", "prob"])
-    cplx = rt == "probability_amplitude"
+    rt = rng.choice(["probability"] * 6 + ["probability_amplitude"] * 3 + ["counts", "prob"])
     shape = [r, c]
     if rng.random() < 0.08:
         shape = [max(0, r + rng.choice([-1, 1])), c] if rng.random() < 0.5 else [r, max(0, c + rng.choice([-1, 1]))]
-    arr = [[gen_value(rng, cplx) for _ in range(shape[1])] for _ in range(shape[0])]
+    # storage form, chosen independently of the result type
+    dt = "auto" if rng.random() < 0.3 else rng.choice(DTYPES)
+    if dt.startswith("list") and shape[0] == 0:
+        dt = "float64"
+    amp = rt == "probability_amplitude"
+    if dt == "auto":
+        imag = amp  # as before: the dtype follows the values (complex iff some value has an imaginary part)
+    elif dt in CPLX_DT or dt == "list:complex":
+        # amplitudes: complex or purely real numbers in a complex array; probabilities: real numbers in a complex
+        # array, now and then with imaginary parts (numpy drops them under a mapping; acceptance only is checked)
+        imag = rng.random() < (0.5 if amp else 0.12)
+    elif dt == "object":
+        imag = amp and rng.random() < 0.5  # Python complex objects only in amplitude results
+    else:
+        imag = False
+    arr = [[gen_value_for(rng, dt, imag) for _ in range(shape[1])] for _ in range(shape[0])]
     qs = []
     for _ in range(rng.randint(2, 6)):
-        if rng.random() < 0.55:
+        x = rng.random()
+        if x < 0.5:
             qs.append(["get", gen_item(rng, ins, outs, modes)])
-        else:
+        elif x < 0.85:
             qs.append(["map", gen_chain(rng)])
-    return {"kind": "sim", "rtype": rt, "shape": shape, "array": arr, "inputs": ins, "outputs": outs, "q": qs}
+        else:
+            qs.append(["fan", gen_fan(rng)])
+    return {"kind": "sim", "rtype": rt, "dtype": dt, "shape": shape, "array": arr, "inputs": ins, "outputs": outs, "q": qs}
+
+
+CTYPES = ["int", "int", "float", "fraction", "bool", "np.int64", "np.int32", "np.uint16", "np.float64", "np.float32", "mixed"]
 
 
 def gen_samp_case(ctx: Ctx, rng) -> dict:
     modes = rng.randint(1, 4)
     k = rng.choice([0, 1, 2, 3, 4, 5, 6, 8] + ([10, 14] if SIZE["big"] else []))
     outs = gen_states(rng, k, modes, rng.random() < 0.1)
-    results = [[o, [str(rng.choice([0, 1, 2, 5, rng.randint(0, 1000)])), "0"]] for o in outs]
+    ct = rng.choice(CTYPES)
+
+    def cnt():
+        if ct == "bool":
+            return str(rng.choice([0, 1, 1]))
+        if ct in ("float", "fraction", "np.float64", "np.float32", "mixed") and rng.random() < 0.6:
+            return frac_str(Fraction(rng.choice([0, 1, 4, rng.randint(0, 800)]), 8))  # weights / probabilities, not only whole counts
+        return str(rng.choice([0, 1, 2, 5, rng.randint(0, 1000)]))
+
+    results = [[o, [cnt(), "0"]] for o in outs]
     inp = None if rng.random() < 0.07 else [rng.randint(0, 2) for _ in range(modes)]
     qs = []
     for _ in range(rng.randint(2, 5)):
         r = rng.random()
-        if r < 0.5:
+        if r < 0.45:
             qs.append(["get", rng.choice(outs) if outs and rng.random() < 0.75 else (None if rng.random() < 0.3 else [7] * modes)])
-        else:
+        elif r < 0.8:
             qs.append(["map", gen_chain(rng)])
-    return {"kind": "samp", "results": results, "input": inp, "q": qs}
+        else:
+            qs.append(["fan", gen_fan(rng)])
+    return {"kind": "samp", "ctype": ct, "results": results, "input": inp, "q": qs}
+
+
+def corpus() -> list:
+    """directed stream, always run first: every storage form x both valid result types, queried through pair / nested
+    subscripts and mapped by all four mappings on the same object (twice each) and in a chain"""
+    out = []
+    ins, outs2, outs3 = [[1, 0], [0, 1]], [[1, 0], [0, 1]], [[2, 0], [1, 1], [0, 2]]
+    every = [[k, i] for k in ("threshold", "parity") for i in (False, True)]
+    q = [["fan", every + every[::-1]], ["map", [["threshold", False], ["parity", True], ["parity", True]]],
+         ["get", {"tup": [{"st": [1, 0]}, {"st": [0, 1]}]}], ["fan", [["parity", True], ["parity", False], ["parity", True]]]]
+    for dt in ["auto"] + DTYPES:
+        integral = dt in INT_DT or dt in ("bool", "list:bool", "list:int")
+        for rt in ("probability_amplitude", "probability"):
+            if integral:
+                # identity / 0-1 tables
+                a2 = [[["1", "0"], ["0", "0"]], [["0", "0"], ["1", "0"]]]
+                a3 = [[["1", "0"], ["1", "0"], ["0", "0"]], [["0", "0"], ["1", "0"], ["1", "0"]]]
+            elif rt == "probability_amplitude":
+                # a real orthogonal transformation (dyadic): one- and two-photon amplitudes, all real
+                a2 = [[["1/2", "0"], ["1/2", "0"]], [["1/2", "0"], ["-1/2", "0"]]]
+                a3 = [[["1/2", "0"], ["0", "0"], ["-1/2", "0"]], [["1/4", "0"], ["1/2", "0"], ["1/4", "0"]]]
+            else:
+                a2 = [[["1/4", "0"], ["3/4", "0"]], [["1", "0"], ["0", "0"]]]
+                a3 = [[["1/4", "0"], ["1/2", "0"], ["1/4", "0"]], [["1/8", "0"], ["0", "0"], ["7/8", "0"]]]
+            out.append({"kind": "sim", "rtype": rt, "dtype": dt, "shape": [2, 2], "array": a2, "inputs": ins, "outputs": outs2, "q": q})
+            out.append({"kind": "sim", "rtype": rt, "dtype": dt, "shape": [2, 3], "array": a3, "inputs": ins, "outputs": outs3, "q": q})
+    # genuinely complex values under either label (a 'probability' result with imaginary parts: acceptance only)
+    for dt in ("auto", "complex128", "complex64", "list:complex", "object"):
+        for rt in ("probability_amplitude", "probability"):
+            if (dt, rt) == ("object", "probability"):
+                continue
+            out.append({"kind": "sim", "rtype": rt, "dtype": dt, "shape": [1, 3],
+                        "array": [[["1/2", "1"], ["1/4", "0"], ["1/4", "-1/2"]]], "inputs": [[1, 1]], "outputs": outs3, "q": q})
+    # empty rows / columns and a single column in every storage form that can express them
+    for dt in ("float64", "complex128", "int64", "bool", "object"):
+        for rt in ("probability_amplitude", "probability"):
+            out.append({"kind": "sim", "rtype": rt, "dtype": dt, "shape": [0, 2], "array": [], "inputs": [], "outputs": outs2, "q": q[:2]})
+            out.append({"kind": "sim", "rtype": rt, "dtype": dt, "shape": [2, 0], "array": [[], []], "inputs": ins, "outputs": [], "q": q[:2]})
+    for ct in dict.fromkeys(CTYPES):
+        whole = ct in ("int", "bool", "np.int64", "np.int32", "np.uint16")
+        vals = ["1", "0", "1", "1"] if ct == "bool" else ["30", "60", "7", "3"] if whole else ["1/2", "1/4", "1/8", "1/8"]
+        out.append({"kind": "samp", "ctype": ct, "input": [1, 1, 0],
+                    "results": [[s, [v, "0"]] for s, v in zip([[2, 0, 0], [1, 1, 0], [0, 3, 1], [0, 1, 0]], vals)],
+                    "q": [["fan", every + every[::-1]], ["map", [["threshold", True], ["threshold", True], ["parity", False]]],
+                          ["get", [1, 1, 0]]]})
+    return out
 
 
 # ------------------------------------------------------------------------------------- sim
@@ -312,20 +437,80 @@ def mapping_oracle(prev, new, kind: str, inv: bool, where: str) -> list[str]:
     return probs
 
 
+def build_array(case: dict):
+    """the object handed to SimulationResult(...) for the case's storage form -> (object, lossy)
+    lossy: numpy does not add these values as numbers (bool) or drops part of them (complex under 'probability')"""
+    shape = case["shape"]
+    dt = case.get("dtype", "auto")
+    vals = case["array"]
+    has_imag = any(Fraction(v[1]) != 0 for row in vals for v in row)
+
+    def py(v, i, j, kind):
+        re, im = Fraction(v[0]), Fraction(v[1])
+        if kind == "complex" or im != 0:
+            return complex(float(re), float(im))
+        if kind == "bool":
+            return bool(re)
+        if kind == "int":
+            return int(re)
+        if kind == "float":
+            return float(re)
+        if kind == "mixed":  # ints, floats and bools side by side (numpy makes them float64)
+            return int(re) if re.denominator == 1 and (i + j) % 2 == 0 else bool(re) if re in (0, 1) and (i + j) % 3 == 0 else float(re)
+        # object: Python ints, Fractions and floats side by side
+        return int(re) if re.denominator == 1 and (i + j) % 2 == 0 else re if (i + j) % 3 else float(re)
+
+    if dt.startswith("list"):
+        kind = dt.split(":")[1]
+        arr = [[py(v, i, j, kind) for j, v in enumerate(row)] for i, row in enumerate(vals)]
+        lossy = kind == "bool" and shape[0] * shape[1] > 0
+    else:
+        if dt == "auto":
+            npdt = complex if has_imag else float
+        elif dt == "object":
+            npdt = object
+        else:
+            npdt = np.dtype(dt)
+        arr = np.zeros(tuple(shape), dtype=npdt)
+        kind = "object" if dt == "object" else "complex" if np.dtype(npdt).kind == "c" else \
+            "bool" if dt == "bool" else "int" if np.dtype(npdt).kind in "iu" else "float"
+        for i, row in enumerate(vals):
+            for j, v in enumerate(row):
+                arr[i, j] = py(v, i, j, kind)
+        lossy = dt == "bool"
+    if case["rtype"] == "probability" and has_imag:
+        lossy = True
+    return arr, lossy
+
+
+def snap_sim(res):
+    """everything observable of a SimulationResult, as plain Python values"""
+    a = np.asarray(res.array)
+    return (str(a.dtype), list(a.shape), a.tolist(), [(k, [(o, complex(v)) for o, v in row]) for k, row in nested(res)],
+            [s.s for s in res.inputs], [s.s for s in res.outputs], res.result_type)
+
+
+def apply_map(obj, kind: str, inv: bool):
+    with warnings.catch_warnings():
+        warnings.simplefilter("ignore")
+        return ires(lambda: obj.apply_threshold_mapping(invert=inv) if kind == "threshold" else obj.apply_parity_mapping(invert=inv))
+
+
 def run_sim(ctx: Ctx, case: dict) -> list[str]:
     probs: list[str] = []
     shape = case["shape"]
-    cplx = any(Fraction(v[1]) != 0 for row in case["array"] for v in row)
-    arr = np.zeros(tuple(shape), dtype=complex if cplx else float)
-    for i, row in enumerate(case["array"]):
-        for j, v in enumerate(row):
-            arr[i, j] = to_c(v) if cplx else float(Fraction(v[0]))
+    dt = case.get("dtype", "auto")
+    arr, lossy = build_array(case)
     ins = [State(list(s)) for s in case["inputs"]]
     outs = [State(list(s)) for s in case["outputs"]]
     built = ires(lambda: SimulationResult(arr, case["rtype"], inputs=ins, outputs=outs))
     valid_type = case["rtype"] in ("probability", "probability_amplitude")
     ok_shape = shape == [len(ins), len(outs)]
     ctx.count("sim:new:" + ("ok" if valid_type and ok_shape else "bad-type" if not valid_type else "bad-shape"))
+    if valid_type:
+        real_only = not any(Fraction(v[1]) != 0 for row in case["array"] for v in row)
+        ctx.count(f"sim:stored:{case['rtype']}:{dt}" + (":real-valued" if real_only and case["rtype"] == "probability_amplitude" else
+                                                       ":with-imaginary-parts" if not real_only else ""))
     if len(dedup(case["inputs"])) != len(ins):
         ctx.count("sim:duplicate-inputs")
     if len(dedup(case["outputs"])) != len(outs):
@@ -333,13 +518,43 @@ def run_sim(ctx: Ctx, case: dict) -> list[str]:
     if 0 in shape:
         ctx.count("sim:empty-rows-or-columns")
     if (built[0] == "ok") != (valid_type and ok_shape) or (built[0] == "err" and built[1] != "ResultCreationError"):
-        probs.append(f"oracle: SimulationResult(type={case['rtype']}, shape={shape}, {len(ins)} inputs, {len(outs)} outputs) -> {built}")
+        probs.append(f"oracle: SimulationResult(type={case['rtype']}, {dt} values of shape {shape}, {len(ins)} inputs, {len(outs)} outputs) -> {built}")
     # model: queries need the set orders observed on the implementation, so run the implementation first
     res = built[1] if built[0] == "ok" else None
     impl_answers = []
     mq = []
+    amp = case["rtype"] == "probability_amplitude"
+
+    def one_mapping(cur, kind, inv, w):
+        """apply one mapping to `cur`; clauses that do not need the model -> (outcome, problems)"""
+        out = []
+        before = snap_sim(cur)
+        nxt = apply_map(cur, kind, inv)
+        if snap_sim(cur) != before:
+            out.append(f"oracle: {w}: the result the mapping was applied to has changed (array / nested values / lists)")
+        if amp != (nxt == ("err", "ValueError")):
+            out.append(f"oracle: {w}: {'accepted' if nxt[0] == 'ok' else 'raised ' + nxt[1]} for a {case['rtype']} result "
+                       f"stored as {np.asarray(cur.array).dtype} (mappings are refused, with a ValueError, exactly for amplitude results)")
+        return nxt, out
+
+    def check_step(pv, nw, kind, inv, w, values: bool):
+        out = []
+        if values:
+            out += mapping_oracle(pv, nw, kind, inv, w)
+        else:
+            ctx.count("sim:map:values-not-numbers:oracle-only")
+            images = dedup([f_state(kind, inv, o.s) for o in pv.outputs]) if pv.inputs else []
+            if sorted(o.s for o in nw.outputs) != sorted(images) or [s.s for s in nw.inputs] != [s.s for s in pv.inputs] \
+                    or nw.result_type != pv.result_type:
+                out.append(f"oracle: {w}: outputs of the mapped result are not the images / inputs or type not kept")
+        out += coherence(nw, w)
+        if len(dedup([tuple(f_state(kind, inv, o.s)) for o in pv.outputs])) < len(dedup([tuple(o.s) for o in pv.outputs])):
+            ctx.count("sim:map:images-coincide")
+        return out
+
     if res is not None:
         probs += coherence(res, "constructed result")
+        snap0 = snap_sim(res)
         for q in case["q"]:
             if q[0] == "get":
                 item = to_item(q[1])
@@ -347,49 +562,72 @@ def run_sim(ctx: Ctx, case: dict) -> list[str]:
                 impl_answers.append(got)
                 mq.append(q)
                 ctx.count("sim:get:" + ("state" if "st" in q[1] else f"tuple{len(q[1]['tup'])}" if "tup" in q[1] else "other") + ":" + got[0])
+            elif q[0] == "fan":
+                # every mapping on the SAME object; an earlier call must not influence a later one
+                seen: dict = {}
+                for n_, (kind, inv) in enumerate(q[1]):
+                    ctx.count(f"sim:fan:{kind}:{'inverted' if inv else 'plain'}")
+                    w = f"mapping #{n_} ({kind}, invert={inv}) on the same object"
+                    nxt, pr = one_mapping(res, kind, inv, w)
+                    probs += pr
+                    if nxt[0] == "ok":
+                        probs += check_step(res, nxt[1], kind, inv, w, not lossy)
+                        sn = snap_sim(nxt[1])
+                        key = (kind, inv)
+                        if key in seen:
+                            ctx.count("sim:fan:same-mapping-again")
+                            a, b = seen[key], sn
+                            if sorted(zip(a[5], np.asarray(a[2]).T.tolist() if a[2] else [])) != \
+                                    sorted(zip(b[5], np.asarray(b[2]).T.tolist() if b[2] else [])):
+                                probs.append(f"oracle: {w}: differs from the result of the same call made earlier on this object")
+                        seen[key] = sn
+                        if nxt[1] is res:
+                            probs.append(f"oracle: {w}: returned the object itself")
+                    if not lossy:
+                        impl_answers.append(nxt)
+                        mq.append(["map", [[kind, inv]], [[o.s for o in nxt[1].outputs]] if nxt[0] == "ok" else [[]]])
             else:
                 cur = res
                 orders = []
                 steps = []
                 outcome = ("ok", None)
-                for kind, inv in q[1]:
+                cur_lossy = lossy
+                for k, (kind, inv) in enumerate(q[1]):
                     ctx.count(f"sim:map:{kind}:{'inverted' if inv else 'plain'}")
-                    with warnings.catch_warnings():
-                        warnings.simplefilter("ignore")
-                        nxt = ires(lambda: cur.apply_threshold_mapping(invert=inv) if kind == "threshold"
-                                   else cur.apply_parity_mapping(invert=inv))
+                    w = f"mapping #{k} ({kind}, invert={inv})"
+                    nxt, pr = one_mapping(cur, kind, inv, w)
+                    probs += pr
                     if nxt[0] == "err":
                         outcome = nxt
                         break
+                    probs += check_step(cur, nxt[1], kind, inv, w, not cur_lossy)
+                    cur_lossy = False  # a mapped result is a float64 array
                     steps.append((cur, nxt[1], kind, inv))
                     orders.append([o.s for o in nxt[1].outputs])
                     cur = nxt[1]
-                amp = case["rtype"] == "probability_amplitude"
-                if amp != (outcome == ("err", "ValueError")):
-                    probs.append(f"oracle: mapping of a {case['rtype']} result -> {outcome} (refused exactly for amplitudes)")
-                for k, (pv, nw, kind, inv) in enumerate(steps):
-                    w = f"mapping #{k} ({kind}, invert={inv})"
-                    probs += mapping_oracle(pv, nw, kind, inv, w)
-                    probs += coherence(nw, w)
-                    if len(dedup([tuple(f_state(kind, inv, o.s)) for o in pv.outputs])) < len(dedup([tuple(o.s) for o in pv.outputs])):
-                        ctx.count("sim:map:images-coincide")
-                if steps and not amp:
+                if steps and not amp and not (lossy and len(steps) == 1):
                     # repeated application: plain mappings are idempotent, an inverted one applied twice is the plain one
                     pv, nw, kind, inv = steps[-1]
-                    with warnings.catch_warnings():
-                        warnings.simplefilter("ignore")
-                        again = nw.apply_threshold_mapping(invert=inv) if kind == "threshold" else nw.apply_parity_mapping(invert=inv)
-                        plain = pv.apply_threshold_mapping() if kind == "threshold" else pv.apply_parity_mapping()
-                    ref = plain if inv else nw
-                    for s in dedup([x.s for x in pv.inputs]):
-                        a = {tuple(o.s): v for o, v in again[State(list(s))].items()}
-                        b = {tuple(o.s): v for o, v in ref[State(list(s))].items()}
-                        if set(a) != set(b) or any(not close(a[k], b[k]) for k in a):
-                            probs.append(f"oracle: applying the {kind} mapping (invert={inv}) twice does not give the "
-                                         f"{'plain mapping' if inv else 'same result as once'} for input {s}")
-                            break
-                impl_answers.append((outcome[0], cur) if outcome[0] == "ok" else outcome)
-                mq.append(["map", q[1], orders + [[]] * (len(q[1]) - len(orders))])
+                    again = apply_map(nw, kind, inv)
+                    plain = apply_map(pv, kind, False)
+                    ref = plain if inv else ("ok", nw)
+                    if again[0] != "ok" or ref[0] != "ok":
+                        probs.append(f"oracle: a repeated {kind} mapping is refused: {again if again[0] != 'ok' else ref}")
+                    else:
+                        for s in dedup([x.s for x in pv.inputs]):
+                            a = {tuple(o.s): v for o, v in again[1][State(list(s))].items()}
+                            b = {tuple(o.s): v for o, v in ref[1][State(list(s))].items()}
+                            if set(a) != set(b) or any(not close(a[k], b[k]) for k in a):
+                                probs.append(f"oracle: applying the {kind} mapping (invert={inv}) twice does not give the "
+                                             f"{'plain mapping' if inv else 'same result as once'} for input {s}")
+                                break
+                if not lossy:
+                    impl_answers.append((outcome[0], cur) if outcome[0] == "ok" else outcome)
+                    mq.append(["map", q[1], orders + [[]] * (len(q[1]) - len(orders))])
+        if snap_sim(res) != snap0:
+            probs.append("oracle: the constructed result changed while it was queried and mapped")
+        else:
+            probs += [p.replace("constructed result", "constructed result after all queries") for p in coherence(res, "constructed result")]
     req = {"op": "res", "kind": "sim", "rtype": case["rtype"], "shape": shape,
            "array": [[val_str(v) for v in row] for row in case["array"]],
            "inputs": case["inputs"], "outputs": case["outputs"], "q": mq}
@@ -431,27 +669,84 @@ def run_sim(ctx: Ctx, case: dict) -> list[str]:
 # ------------------------------------------------------------------------------------- samp
 
 
+def count_value(ct: str, v: Fraction, k: int):
+    """the count / weight in the form the case asks for"""
+    if ct == "mixed":
+        ct = ["int", "float", "np.int64", "fraction", "np.float64"][k % 5]
+    whole = v.denominator == 1
+    if ct == "int":
+        return int(v) if whole else float(v)
+    if ct == "bool":
+        return bool(v)
+    if ct == "float":
+        return float(v)
+    if ct == "fraction":
+        return Fraction(v)
+    if ct.startswith("np.float"):
+        return getattr(np, ct[3:])(float(v))
+    return getattr(np, ct[3:])(int(v)) if whole else np.float64(float(v))
+
+
+def snap_samp(res):
+    return ([(k.s, complex(v), type(v).__name__) for k, v in dict.items(res)], [o.s for o in res.outputs], res.input.s)
+
+
 def run_samp(ctx: Ctx, case: dict) -> list[str]:
     probs: list[str] = []
-    pairs = [(State(list(s)), int(Fraction(v[0]))) for s, v in case["results"]]
+    ct = case.get("ctype", "int")
+    pairs = [(State(list(s)), count_value(ct, Fraction(v[0]), k)) for k, (s, v) in enumerate(case["results"])]
     d = dict(pairs)
     inp = State(list(case["input"])) if case["input"] is not None else [1, 0]
     built = ires(lambda: SamplingResult(d, inp))
     ctx.count("samp:new:" + ("ok" if case["input"] is not None else "bad-input"))
+    ctx.count("samp:counts-as:" + ct)
     exp_ok = case["input"] is not None
     if (built[0] == "ok") != exp_ok or (built[0] == "err" and built[1] != "ResultCreationError"):
         probs.append(f"oracle: SamplingResult(..., input={case['input']}) -> {built}")
     res = built[1] if built[0] == "ok" else None
     mq, impl_answers = [], []
+
+    def one_mapping(cur, kind, inv, w):
+        """-> mapped result or None; the clauses of the property on this single call"""
+        before = snap_samp(cur)
+        nxt = ires(lambda: cur.apply_threshold_mapping(invert=inv) if kind == "threshold" else cur.apply_parity_mapping(invert=inv))
+        if snap_samp(cur) != before:
+            probs.append(f"oracle: {w}: the SamplingResult the mapping was applied to has changed")
+        if nxt[0] == "err":
+            probs.append(f"oracle: mapping of a SamplingResult raised {nxt[1]}")
+            return nxt
+        new = nxt[1]
+        want: dict = {}
+        for o, v in dict.items(cur):
+            g = tuple(f_state(kind, inv, o.s))
+            want[g] = want.get(g, 0) + v
+        gotd = [(tuple(o.s), v) for o, v in dict.items(new)]
+        if gotd != list(want.items()):
+            probs.append(f"oracle: {kind} mapping (invert={inv}) of counts {[(o.s, v) for o, v in dict.items(cur)]} gives "
+                         f"{gotd}, images with added counts are {list(want.items())}")
+        if sum(dict.values(new)) != sum(dict.values(cur)):
+            probs.append("oracle: total count changed under a mapping")
+        if [o.s for o in new.outputs] != [list(g) for g in want] or new.input != cur.input:
+            probs.append("oracle: outputs/input of the mapped SamplingResult are inconsistent with its contents")
+        for o, v in dict.items(new):
+            if ires(lambda: new[o]) != ("ok", v):
+                probs.append(f"oracle: mapped SamplingResult[{o}] != {v}")
+                break
+        if len(want) < len(cur):
+            ctx.count("samp:map:images-coincide")
+        return nxt
+
     if res is not None:
         # round trip: exactly the counts it was built from
         if [(k.s, v) for k, v in dict.items(res)] != [(k.s, v) for k, v in d.items()] or [o.s for o in res.outputs] != [k.s for k in d] \
                 or res.input != inp:
             probs.append("oracle: a SamplingResult does not return the counts / outputs / input it was built from")
         for k, v in d.items():
-            if ires(lambda: res[k]) != ("ok", v):
-                probs.append(f"oracle: SamplingResult[{k}] != {v}")
+            got = ires(lambda: res[k])
+            if got != ("ok", v):
+                probs.append(f"oracle: SamplingResult[{k}] = {got}, built from {v!r}")
                 break
+        snap0 = snap_samp(res)
         for q in case["q"]:
             if q[0] == "get":
                 item = State(list(q[1])) if q[1] is not None else 5
@@ -459,35 +754,36 @@ def run_samp(ctx: Ctx, case: dict) -> list[str]:
                 impl_answers.append(got)
                 mq.append(q)
                 ctx.count("samp:get:" + got[0])
+            elif q[0] == "fan":
+                seen: dict = {}
+                for n_, (kind, inv) in enumerate(q[1]):
+                    ctx.count(f"samp:fan:{kind}:{'inverted' if inv else 'plain'}")
+                    nxt = one_mapping(res, kind, inv, f"mapping #{n_} ({kind}, invert={inv}) on the same object")
+                    if nxt[0] == "ok":
+                        sn = snap_samp(nxt[1])
+                        if (kind, inv) in seen:
+                            ctx.count("samp:fan:same-mapping-again")
+                            if seen[(kind, inv)] != sn:
+                                probs.append(f"oracle: {kind} mapping (invert={inv}) differs from the result of the same call made earlier on this object")
+                        seen[(kind, inv)] = sn
+                        if nxt[1] is res:
+                            probs.append("oracle: a mapping returned the SamplingResult itself")
+                    impl_answers.append(nxt)
+                    mq.append(["map", [[kind, inv]]])
             else:
                 cur = res
                 outcome = ("ok", None)
-                for kind, inv in q[1]:
+                for k_, (kind, inv) in enumerate(q[1]):
                     ctx.count(f"samp:map:{kind}:{'inverted' if inv else 'plain'}")
-                    nxt = ires(lambda: cur.apply_threshold_mapping(invert=inv) if kind == "threshold"
-                               else cur.apply_parity_mapping(invert=inv))
+                    nxt = one_mapping(cur, kind, inv, f"mapping #{k_} ({kind}, invert={inv})")
                     if nxt[0] == "err":
                         outcome = nxt
-                        probs.append(f"oracle: mapping of a SamplingResult raised {nxt[1]}")
                         break
-                    new = nxt[1]
-                    want: dict = {}
-                    for o, v in dict.items(cur):
-                        g = tuple(f_state(kind, inv, o.s))
-                        want[g] = want.get(g, 0) + v
-                    gotd = [(tuple(o.s), v) for o, v in dict.items(new)]
-                    if gotd != list(want.items()):
-                        probs.append(f"oracle: {kind} mapping (invert={inv}) of counts {[(o.s, v) for o, v in dict.items(cur)]} gives "
-                                     f"{gotd}, images with added counts are {list(want.items())}")
-                    if sum(dict.values(new)) != sum(dict.values(cur)):
-                        probs.append("oracle: total count changed under a mapping")
-                    if [o.s for o in new.outputs] != [list(g) for g in want] or new.input != cur.input:
-                        probs.append("oracle: outputs/input of the mapped SamplingResult are inconsistent with its contents")
-                    if len(want) < len(cur):
-                        ctx.count("samp:map:images-coincide")
-                    cur = new
+                    cur = nxt[1]
                 impl_answers.append((outcome[0], cur) if outcome[0] == "ok" else outcome)
                 mq.append(q)
+        if snap_samp(res) != snap0:
+            probs.append("oracle: the constructed SamplingResult changed while it was queried and mapped")
     model = ctx.model.call({"op": "res", "kind": "samp", "results": [[s, val_str(v)] for s, v in case["results"]],
                             "input": case["input"], "q": mq})
     mnew = mclass(model["new"], "new")
@@ -525,7 +821,7 @@ def run_case(ctx: Ctx, case: dict) -> list[str]:
 
 def nontrivial(case: dict) -> bool:
     if case["kind"] == "sim":
-        return case["shape"][0] >= 1 and case["shape"][1] >= 2 and any(q[0] == "map" for q in case["q"]) or \
+        return case["shape"][0] >= 1 and case["shape"][1] >= 2 and any(q[0] in ("map", "fan") for q in case["q"]) or \
             (case["shape"][0] >= 2 and case["shape"][1] >= 2)
     return len(case["results"]) >= 2
 
@@ -541,9 +837,9 @@ def shrink(ctx: Ctx, case: dict) -> dict:
     if len(cur["q"]) > 1:
         cur = {**cur, "q": ddmin(cur["q"], lambda sub: fails({**cur, "q": sub}))}
     for i, q in enumerate(cur["q"]):
-        if q[0] == "map" and len(q[1]) > 1:
-            ch = ddmin(q[1], lambda sub: fails({**cur, "q": cur["q"][:i] + [["map", sub]] + cur["q"][i + 1:]}))
-            cur = {**cur, "q": cur["q"][:i] + [["map", ch]] + cur["q"][i + 1:]}
+        if q[0] in ("map", "fan") and len(q[1]) > 1:
+            ch = ddmin(q[1], lambda sub: fails({**cur, "q": cur["q"][:i] + [[q[0], sub]] + cur["q"][i + 1:]}))
+            cur = {**cur, "q": cur["q"][:i] + [[q[0], ch]] + cur["q"][i + 1:]}
     if cur["kind"] == "sim" and cur["shape"] == [len(cur["inputs"]), len(cur["outputs"])]:
         # drop columns, then rows
         cols = list(range(len(cur["outputs"])))
@@ -597,7 +893,15 @@ def complex_probability_note(ctx: Ctx) -> None:
     r = SimulationResult(np.array([[0.5 + 1j, 0.25]]), "probability", inputs=[State([1, 0])], outputs=[State([2, 0]), State([1, 0])])
     with warnings.catch_warnings(record=True) as w:
         warnings.simplefilter("always")
-        m = r.apply_threshold_mapping()
+        got = ires(r.apply_threshold_mapping)
+    if got[0] != "ok":
+        return  # a refusal is a violation of the property; the generated cases of this kind report it with a replay
+    m = got[1]
+    rb = SimulationResult(np.array([[True, True]]), "probability", inputs=[State([1, 0])], outputs=[State([2, 0]), State([1, 0])])
+    gb = ires(rb.apply_threshold_mapping)
+    if gb[0] == "ok" and abs(complex(np.asarray(gb[1].array)[0, 0]) - 2) > TOL:
+        ctx.notes.append("observation (not counted): a result built from a bool array adds coinciding weights with numpy's boolean "
+                         "`+` (True + True = True), so the mapped weight is 1, not 2; weights are numbers in this property")
     if abs(complex(np.asarray(m.array)[0, 0]) - (0.75 + 1j)) > TOL:
         ctx.notes.append("observation (not counted): a result labelled 'probability' that holds complex values loses the imaginary "
                          f"parts under a mapping (numpy {[x.category.__name__ for x in w]}); the mapped array is real")
@@ -605,24 +909,33 @@ def complex_probability_note(ctx: Ctx) -> None:
 
 def run(ctx: Ctx) -> None:
     ctx.rule = ("generated SimulationResults (0-4 inputs x 0-7 outputs, duplicate states, shape mismatches, invalid types, real "
-                "or complex dyadic values) and SamplingResults (0-8 outputs) with 2-6 queries each: subscripts of every form and "
-                "chains of 1-3 threshold/parity mappings, plain or inverted; non-trivial = a result with >=2 outputs that is "
-                "mapped, or >=2x2; distinct = distinct case")
+                "or complex dyadic values handed over as ndarrays of every numeric dtype / bool / object or as nested lists, "
+                "independently of the result type) and SamplingResults (0-8 outputs, counts as Python / numpy ints, floats, "
+                "Fractions, bools) with 2-6 queries each: subscripts of every form, chains of 1-3 threshold/parity mappings (each "
+                "applied to the previous mapped result) and fans of 2-8 mappings applied to the same object, plain or inverted; a "
+                "directed corpus (every storage form x both result types x all four mappings) runs first; non-trivial = a result "
+                "with >=2 outputs that is mapped, or >=2x2; distinct = distinct case")
     first = selftest(ctx)
     SIZE["big"] = ctx.thorough
     complex_probability_note(ctx)
     rng = ctx.rng
     plan = [("sim", ctx.n(3000, 45000)), ("samp", ctx.n(2000, 25000))]
     shown = {}
-    for kind, cnt in plan:
+    directed = corpus()
+    for kind, cnt in [("corpus", len(directed))] + plan:
         for k in range(cnt):
             if ctx.out_of_time():
                 break
-            case = first if (kind, k) == ("sim", 0) else GENS[kind](ctx, rng)
-            ctx.count("kind:" + kind)
+            if kind == "corpus":
+                case = directed[k]
+                ctx.count("corpus")
+            else:
+                case = first if (kind, k) == ("sim", 0) else GENS[kind](ctx, rng)
+            kind_ = case["kind"]
+            ctx.count("kind:" + kind_)
             probs = run_case(ctx, case)
             shown[kind] = shown.get(kind, 0) + 1
-            ctx.case(json.dumps(case, sort_keys=True), nontrivial(case), sample=case if shown[kind] == 3 else None)
+            ctx.case(json.dumps(case, sort_keys=True), nontrivial(case), sample=case if shown[kind] == 3 and kind != "corpus" else None)
             if probs:
                 ctx.count("cases_with_problems")
                 small = shrink(ctx, case)
@@ -633,7 +946,8 @@ def clause_of(problem: str) -> str:
     """the violated clause without the concrete values (one replay per clause)"""
     import re
 
-    t = re.sub(r"mapping #\d+ \([^)]*\):", "", problem)
+    t = re.sub(r"mapping #\d+ \([^)]*\)( on the same object)?:", "", problem)
+    t = re.sub(r"stored as \w+", "", t)
     return " ".join(re.sub(r"[^A-Za-z]+", " ", t).split()[1:8])
 
 
